@@ -69,6 +69,44 @@ func runC08Assign(c *Ctx, r *Report, reg []*BIFEntry) {
 	}
 
 	// R08.9b: map literals and emitf skip absent values before Put
+	r.Rule("R08.9b", "an absent value never becomes a map entry: in the interpreter (pkg/dsl/cst), every call that puts a value into a map or record (Mlrval.MapPut, Mlrmap.PutCopy / PutReference / PutCopyWithMlrvalIndex …) where the value is the direct result of evaluating an expression node (IEvaluable.Evaluate) is dominated by the false edge of IsAbsent() on that value — map literals, emitf and the like skip absent entries as assignments do")
+	nput := 0
+	for _, fn := range c.ModuleFunctions() {
+		if fn.Pkg == nil || !strings.HasSuffix(fn.Pkg.Pkg.Path(), "/pkg/dsl/cst") {
+			continue
+		}
+		ForEachCall(fn, false, func(site ssa.CallInstruction, in *ssa.Function) {
+			com := site.Common()
+			cn := CalleeName(com)
+			if !(strings.HasPrefix(cn, "pkg/mlrval.Mlrmap.Put") || cn == "pkg/mlrval.Mlrval.MapPut" || cn == "pkg/mlrval.Mlrval.ArrayAppend") {
+				return
+			}
+			// the value is the last argument (keys and anchors come before it)
+			for _, a := range com.Args[len(com.Args)-1:] {
+				ev, ok := a.(*ssa.Call)
+				if !ok || !ev.Call.IsInvoke() || ev.Call.Method.Name() != "Evaluate" {
+					continue
+				}
+				if !strings.HasSuffix(a.Type().String(), "mlrval.Mlrval") {
+					continue
+				}
+				if cn == "pkg/mlrval.Mlrval.ArrayAppend" {
+					continue // array literals keep absent elements (documented: absent in arrays is an error value at output), not in scope
+				}
+				nput++
+				guarded := false
+				for _, g := range GuardsAt(site.Block()) {
+					if !g.Polarity && IsPredCall(g.Cond, "pkg/mlrval.Mlrval.IsAbsent", a) {
+						guarded = true
+					}
+				}
+				key := fmt.Sprintf("%s puts Evaluate() via %s", SSAName(in), cn)
+				r.Check(guarded, "R08.9b", key, c.Rel(site.Pos()), "dominated by !value.IsAbsent()",
+					"the evaluated value put into the map is not guarded by a dominating !IsAbsent() test on that same value: an absent value would become an entry (and abort JSON output with 'absent-values should not have been assigned')")
+			}
+		})
+	}
+	r.Floor("R08.9b", "map puts of evaluated values", nput, 1)
 	r.Rule("R08.10", "compound assignment X= applies operator X: each case label of compoundOpToBaseOp is its returned operator followed by '=', and the operator is registered with a binary implementation")
 	fobj := c.LookupFunc("pkg/dsl/cst", "compoundOpToBaseOp")
 	if fobj == nil {
